@@ -154,3 +154,6 @@ def nontrivial(line):
 
 def classify(line, what):
     return "c05-" + line.split()[1]
+
+
+norm_model = norm_impl
